@@ -57,6 +57,25 @@ CHECKS["C20"] = {
     "technique": "symbolic execution + z3 (QF_NRA, QF_FP) + CrossHair on the pure-Python predicates",
 }
 
+CHECKS["C04"] = {
+    "category": "other",
+    "text": "structural half of the property: the real Flow sampling / density code runs on symbolic noise (fresh symbol per draw), symbolic context rows, an uninterpreted row-wise bijection with its inverse axioms and an uninterpreted embedding net; sample[i,j] == T^-1(noise_r, E(c_i)), logp[i,j] == base_log_prob(noise_r) - lad_inv, log_prob(sample) == returned logp, sample() structure and transform_to_noise are decided as term identities for all (rows, draws, features) in the bound. The statistical convergence is a corollary, not queried.",
+    "design_ref": "DESIGN.md section 6, C04",
+    "technique": "symbolic execution with uninterpreted transform / embedding and stubbed randn; term identities (z3 for polynomial ones)",
+}
+CHECKS["C10"] = {
+    "category": "model_checking",
+    "text": "inductive model checking of the cache state machine on the real classes: every (abstract state satisfying the invariant) x (operation) is executed with the real code on symbolic parameters; z3 decides that outputs equal the uncached recomputation at the current parameters and that the invariant (non-empty slots equal their accessors, empty in training) is re-established - one step covers histories of every length. Random concrete histories are replayed against the real classes as trace validation.",
+    "design_ref": "DESIGN.md section 6, C10",
+    "technique": "inductive-step symbolic model checking (symbolic pre-state + one real operation) with z3 polynomial identities",
+}
+CHECKS["C17"] = {
+    "category": "other",
+    "text": "path classification of the real domain checks on a fully symbolic input (accepted => in domain, rejected => out of domain, no other exception in domain, all finiteness obligations) for Exp/Tanh/Sigmoid/Logit/CauchyCDF and the spline families in both directions with symbolic box / tail bound (QF_NRA), plus the IEEE (QF_FP, float32/float64) execution of the real searchsorted behind the closed-interval test: bin index in [0, K-1] for every float and every bound magnitude.",
+    "design_ref": "DESIGN.md section 6, C17",
+    "technique": "symbolic path classification with z3 nlsat + QF_FP execution of the bin-search kernel",
+}
+
 NOT_APPLICABLE = {
     "C19": "float32-vs-float64 agreement needs QF_FP terms for chains of mul/div/sqrt/exp/log at two precisions; a 6-op representative was undecided in 60 s by z3 5.1, cvc5 1.0.3 and cvc5 1.4.0, and exp/log have no FP theory (DESIGN section 7)",
 }
